@@ -1,6 +1,7 @@
 package main
 
 import (
+	"encoding/json"
 	"fmt"
 	"sort"
 	"strconv"
@@ -9,7 +10,33 @@ import (
 	"google.golang.org/grpc/balancer"
 	"google.golang.org/grpc/balancer/ringhash"
 	"google.golang.org/grpc/connectivity"
+	"google.golang.org/grpc/experimental/balancer/weight"
+	"google.golang.org/grpc/resolver"
 )
+
+// ringStubCC is the minimal balancer.ClientConn a ringhash balancer needs when no RPC is made.
+type ringStubCC struct {
+	balancer.ClientConn // nil: satisfies the embedding requirement; unexpected calls panic
+}
+
+type ringStubSC struct{ balancer.SubConn }
+
+func (ringStubSC) Connect()                          {}
+func (ringStubSC) Shutdown()                         {}
+func (ringStubSC) UpdateAddresses([]resolver.Address) {}
+func (ringStubSC) GetOrBuildProducer(balancer.ProducerBuilder) (balancer.Producer, func()) {
+	return nil, func() {}
+}
+func (ringStubSC) RegisterHealthListener(func(balancer.SubConnState)) {}
+
+func (ringStubCC) NewSubConn([]resolver.Address, balancer.NewSubConnOptions) (balancer.SubConn, error) {
+	return ringStubSC{}, nil
+}
+func (ringStubCC) RemoveSubConn(balancer.SubConn)                   {}
+func (ringStubCC) UpdateAddresses(balancer.SubConn, []resolver.Address) {}
+func (ringStubCC) UpdateState(balancer.State)                       {}
+func (ringStubCC) ResolveNow(resolver.ResolveNowOptions)            {}
+func (ringStubCC) Target() string                                   { return "verif" }
 
 // component ring (C37): the real ringhash newRing / ring.pick / ring.next / picker.Pick.
 //
@@ -25,7 +52,28 @@ func init() {
 		var (
 			r    *ringhash.VerifRing
 			keys []string // in key order
+			bal  balancer.Balancer
 		)
+		describe := func(items []ringhash.VerifItem, keyIndex func(string) int64) string {
+			counts := make([]int64, len(keys))
+			parts := make([]string, len(items))
+			for i, it := range items {
+				if it.Idx != i {
+					return "bad-idx"
+				}
+				k := keyIndex(it.HashKey)
+				if k < 0 {
+					return "stale-endpoint-on-ring"
+				}
+				counts[k]++
+				parts[i] = strconv.FormatUint(it.Hash, 10) + ":" + strconv.FormatInt(k, 10)
+			}
+			is := "-"
+			if len(parts) > 0 {
+				is = strings.Join(parts, ",")
+			}
+			return fmt.Sprintf("n=%d counts=%s items=%s", len(items), showNatList(counts), is)
+		}
 		keyIndex := func(k string) int64 {
 			for i, x := range keys {
 				if x == k {
@@ -75,6 +123,31 @@ func init() {
 					is = strings.Join(parts, ",")
 				}
 				return fmt.Sprintf("n=%d counts=%s items=%s", len(items), showNatList(counts), is)
+			case "bal":
+				// resolver + LB-config update through the REAL ringhash balancer (built by the registered
+				// builder, child = endpointsharding over lazy pick_first); the ring it holds afterwards
+				if bal == nil {
+					bal = balancer.Get(ringhash.Name).Build(ringStubCC{}, balancer.BuildOptions{})
+				}
+				var eps []resolver.Endpoint
+				keys = nil
+				for _, p := range strings.Split(f[3], ",") {
+					q := strings.Split(p, ":")
+					e := resolver.Endpoint{Addresses: []resolver.Address{{Addr: q[0]}}}
+					eps = append(eps, weight.Set(e, weight.EndpointInfo{Weight: uint32(atou64(q[1]))}))
+					keys = append(keys, q[0])
+				}
+				sort.Strings(keys)
+				cfgJSON := fmt.Sprintf(`{"minRingSize": %d, "maxRingSize": %d}`, atou64(f[1]), atou64(f[2]))
+				cfg, err := balancer.Get(ringhash.Name).(balancer.ConfigParser).ParseConfig(json.RawMessage(cfgJSON))
+				if err != nil {
+					return "config-rejected"
+				}
+				if err := bal.UpdateClientConnState(balancer.ClientConnState{ResolverState: resolver.State{Endpoints: eps}, BalancerConfig: cfg}); err != nil {
+					return "err " + err.Error()
+				}
+				r = nil
+				return describe(ringhash.VerifBalancerRing(bal), keyIndex)
 			case "pick":
 				if r == nil {
 					return "no-ring"
